@@ -7,7 +7,7 @@ from .. import build, clib, core, oracles, univ
 from ..core import inf
 
 PROP = 'C06'
-GOLOMB = (0.0, 1.0, 4.0, 9.0, 15.0, 22.0, 32.0)
+GOLOMB = (0.0, 1.0, 4.0, 9.0, 15.0, 22.0, 32.0, 34.0)
 SETTINGS = [{}, {'window': 1, 'penalty': 0.5}, {'psi': (1, 0, 0, 0)}, {'psi': (0, 0, 0, 1), 'window': 2}, {'max_length_diff': 1}]
 
 
@@ -221,7 +221,7 @@ def check_collection(acc, E, fname, nd, series, st, do_native):
 
 
 def jobs(tier, seed):
-    N = 7 if tier == 'thorough' else 6
+    N = 8 if tier == 'thorough' else 6
     out = []
     for n in range(1, N + 1):
         for fname in ('eq1', 'eq2', 'uneq', 'nd2', 'nd3u'):
@@ -264,7 +264,7 @@ def run(ctx):
         PROP, ctx.tier, ctx.seed, acc,
         rule='for every collection (n = 1..N, 5 families with pairwise distinct distances, 5 DTW settings incl. one-sided psi tuples that make the distance asymmetric and max_length_diff=1 on the unequal-length families, which makes some pairs inf) EVERY block ((rb,re),(cb,ce)[,False]) with 0<=rb<re<=n, 0<=cb<ce<=n plus None is '
              'enumerated; a state is one (collection, block); non-trivial = block selects no pair, is non-triangular or reaches the diagonal/below',
-        bounds={'N': 7 if ctx.thorough else 6, 'families': 'eq1 (len 1), eq2 (len 2), uneq (len 1..3), nd2 (2-vectors), nd3u (3-vectors, unequal length), values from a Golomb ruler',
+        bounds={'N': 8 if ctx.thorough else 6, 'families': 'eq1 (len 1), eq2 (len 2), uneq (len 1..3), nd2 (2-vectors), nd3u (3-vectors, unequal length), values from a Golomb ruler',
                 'containers': 'list of lists, list of ndarray, list of array.array, 2-D ndarray, SeriesContainer; list of 2-D ndarray, 3-D ndarray',
                 'engines': 'Python serial, C serial through Cython, exported dtw_distances_{ptrs,matrix,matrices,ndim_ptrs,ndim_matrix,ndim_matrices} with exact-size output',
                 'forms': 'compact, square, square only_triu; advertised lengths from 3 helpers; distance_array_index for all a != b'},
